@@ -249,12 +249,19 @@ PROPS["C07"] = _bisync({
     "apply": "an Unlink effect happens only for DeleteA/DeleteB and only on the path that action names",
 }, ignore={"run_bisync": [r"record_ok", r"conflict_names_free", r"conflict_name_not_planned"], "copy_atomic": [r"synced", r"is_staging\(asp\(from\)\)"]},
    only_re=r"\(C07\)", not_decided=["injectivity of root_pair_hash (two different pairs never share an identifier) is assumed (hash by contract); validated only by the history twin"])
+PROPS["C07"]["units"].append(dict(template="units/pairid.rs", slice=["*"]))
+PROPS["C07"]["clauses"]["root_pair_hash"] = "result == hex(BLAKE3(canon(a) ++ NUL ++ canon(b))); lemma_pair_id_injective: under collision_free() and 'canonical paths contain no NUL', equal identifiers imply equal canonical roots in the same order"
+PROPS["C07"]["not_decided"] = ["std::fs::canonicalize and hex encoding are by contract (R5 shims canon_bytes, hex_string); serde_json totality assumed"]
 PROPS["C08"] = _bisync({
     "copy_atomic": "whatever happens (success, error, a cut between any two steps) no non-staging path other than dst changes; dst changes only by the rename of a staging file that was FLUSHED first (vfs_rename's precondition); non-atomic writes only on *.copia-tmp (vfs_copy's precondition)",
     "Archive::save": "the record is written to <path>.tmp, flushed, then renamed; on any error the live record holds the old bytes, is absent, or is the complete new record",
     "run_bisync": "once the archive has been renamed into place no further rename into either tree happens; apply's renames all land inside the trees; an error in any apply returns before the archive is touched",
 }, ignore={"run_bisync": [r"record_ok", r"conflict_names_free", r"conflict_name_not_planned"]},
    only_re=r"\(C08\)|crashed", not_decided=["'running bisync again after the crash converges' is a statement about a second run; not decided (history-level)"])
+PROPS["C08"]["twins"].append(dict(name="bisync_crashes", repo_fn="src/bin/copia/bidir.rs run_bisync (crash points)", quick=3, thorough=120, needs_cli=True,
+    contract="`copia bisync` on the real binary killed right before EVERY one of its file-system write calls (ptrace supervisor), two setups (after a first sync: create, propagate both ways, delete, both-changed conflict, delete-vs-modify, nested path; and a first run without archive): every live path holds a complete version that existed before the run, the archive on disk is the old one, absent, or a complete new one whose every entry is in place on both sides; running bisync again (up to 3 times) yields the trees of an uninterrupted run",
+    bounded="the two-run clause of C08 ('running bisync again after the crash converges to the uninterrupted result') has no contract (it is a statement about a second process run); this enumeration stands in. Bound: 2 setups (9 + 5 paths, all seven action kinds), every kill point (56 + 44 on the pinned tree; quick: every point up to 30 then every 2nd), process kill (not power loss)"))
+PROPS["C08"]["fallback_searches"] = ["bisync", "bisync_crash"]
 PROPS["C02"] = _bisync({
     "apply": "per action, under 'the scan is still accurate at this path': propagate puts the source bytes on the other side and keeps them on the source side; delete-vs-modify restores the survivor; a divergent edit leaves the greater-BLAKE3 version at the path on both sides and the other version at the conflict-copy name on both sides; nothing outside the action's own paths changes (frame)",
     "run_bisync (H7 side condition)": "at every apply call the conflict-copy names about to be written are free or already hold the very bytes being preserved",
